@@ -49,6 +49,8 @@ type obs struct {
 	FinalStartAt map[int]time.Duration // origin ordinal -> when the origin started writing the final response (only for delayed ones)
 	// strict Expect: request index -> the client had read "100 Continue" for it before it sent the body
 	StrictWaited map[int]bool
+	Got100At     map[int]time.Duration // request index -> when the client had read the first "100 Continue" for it
+	EarlySentAt  map[int]time.Duration // origin ordinal -> when the origin had written its first early interim response
 	StrictGot    map[int]bool
 	StrictWait   map[int]time.Duration
 
@@ -268,7 +270,8 @@ func clientTLSConfig(p *plan) *tls.Config {
 // client and the origin saw. It never fails the test itself.
 func execute(t *testing.T, p *plan) *obs {
 	o := &obs{Got100: map[int]bool{}, ReqWrittenAt: map[int]time.Duration{}, FinalStartAt: map[int]time.Duration{},
-		StrictWaited: map[int]bool{}, StrictGot: map[int]bool{}, StrictWait: map[int]time.Duration{}}
+		StrictWaited: map[int]bool{}, StrictGot: map[int]bool{}, StrictWait: map[int]time.Duration{},
+		Got100At: map[int]time.Duration{}, EarlySentAt: map[int]time.Duration{}}
 	if p.TLS {
 		tlsMatT = t
 		tlsMaterial() // outside the case's bubble
@@ -374,6 +377,13 @@ func execute(t *testing.T, p *plan) *obs {
 					if m.Status/100 == 1 {
 						c := cur
 						st := m.Status
+						if st == 100 {
+							mu.Lock()
+							if _, seen := o.Got100At[c]; !seen {
+								o.Got100At[c] = time.Since(t0)
+							}
+							mu.Unlock()
+						}
 						prog.update(func() {
 							prog.interim[c] = true
 							if st == 100 {
@@ -568,6 +578,11 @@ func runOrigin(p *plan, o *obs, mu *sync.Mutex, bc *bconn, t0 time.Time) {
 			for i := range rp.Interim {
 				if _, err := fw.write(rp.Interim[i].wire()); err != nil {
 					return
+				}
+				if i == 0 {
+					mu.Lock()
+					o.EarlySentAt[k] = time.Since(t0)
+					mu.Unlock()
 				}
 			}
 		}
